@@ -171,6 +171,13 @@ def semantically_equal(m, pf, cf):
 def rule_twin(chk):
     py = M.py(KER)
     cy = M.cy(CK)
+    # the compiled twins and their wrappers compute in double precision, as the Python classes do: nothing in c_kernels.pyx is declared with the C type float (32 bit in Cython)
+    sp = M.single_precision_declarations(cy)
+    chk.decide(not sp, 'compiled-twin-agrees', 'double-precision-throughout', node=sp[0][2] if sp else cy, file=CK, func=M.qualname(M.enclosing_func(sp[0][2])) if sp and M.enclosing_func(sp[0][2]) is not None else '<module>',
+               line=getattr(sp[0][2], 'lineno', 0) if sp else 0,
+               detail_bad='%d declaration(s) with the C type float, e.g. `%s %s`: single precision - the compiled kernel agrees with the Python class to 7 digits only and separations '
+                          'beyond the float32 range give 0 or W(0)' % (len(sp), sp[0][1] if sp else '', sp[0][0] if sp else ''),
+               detail_ok='no single-precision declaration in c_kernels.pyx')
     pyk = dict((c.name, c) for c in kernel_classes(py))
     cyk = dict((c.name, (M.inlined_class(c, keep=KEEP_METHODS) if [m for m in M.methods(c) if m not in KEEP_METHODS and 'kernel' in M.methods(c)] else c)) for c in M.classes(cy))
     chk.floor('python kernel classes', len(pyk), 10)
@@ -1311,10 +1318,13 @@ def attrs_of(cls, dim):
     init = M.methods(cls).get('__init__')
     consts = {'M_1_PI': pi_pow(-2), 'M_2_SQRTPI': pi_pow(-1) * Poly.const(2), 'pi': pi_pow(2), 'dim': Poly.const(dim)}
     vals = {}
+    locs = {}          # plain locals of __init__ (a factor accumulated in a local and stored once at the end)
 
     def ev(e):
         if isinstance(e, ast.Constant) and isinstance(e.value, (int, float)) and not isinstance(e.value, bool):
             return Poly.const(Fraction(e.value).limit_denominator(10 ** 12))
+        if isinstance(e, ast.Name) and e.id in locs:
+            return locs[e.id]
         if isinstance(e, ast.Name) and e.id in consts:
             return consts[e.id]
         if isinstance(e, ast.Attribute) and isinstance(e.value, ast.Name) and e.value.id == 'self' and e.attr in vals:
@@ -1362,6 +1372,16 @@ def attrs_of(cls, dim):
                     if s_.targets[0].attr == 'fac':
                         raise
                     vals.pop(s_.targets[0].attr, None)
+            elif isinstance(s_, ast.Assign) and len(s_.targets) == 1 and isinstance(s_.targets[0], ast.Name):
+                try:
+                    locs[s_.targets[0].id] = ev(s_.value)
+                except ValueError:
+                    locs.pop(s_.targets[0].id, None)
+            elif isinstance(s_, ast.AugAssign) and isinstance(s_.target, ast.Name) and s_.target.id in locs and isinstance(s_.op, (ast.Mult, ast.Div, ast.Add, ast.Sub)):
+                try:
+                    locs[s_.target.id] = ev(ast.BinOp(left=ast.Name(id=s_.target.id, ctx=ast.Load()), op=s_.op, right=s_.value))
+                except ValueError:
+                    locs.pop(s_.target.id, None)
             elif isinstance(s_, ast.AugAssign) and isinstance(s_.target, ast.Attribute) and compact(s_.target.value) == 'self' and isinstance(s_.op, ast.Mult) \
                     and s_.target.attr in vals:
                 try:
